@@ -195,8 +195,55 @@ func (e *caseEval) cases(v ssa.Value, d int) []vcase {
 			}
 			return "(" + a + x.Op.String() + b + ")"
 		})
+	case *ssa.Slice:
+		// buf[:0] — an emptied scratch buffer: the content starts from nothing
+		if x.High != nil {
+			if k, isK := constInt(x.High); isK && k == 0 {
+				return single(`""`)
+			}
+		}
 	case *ssa.Call:
 		com := x.Common()
+		// append(buf, s...) / append(buf, 'c') on a byte slice is concatenation
+		if b, isB := com.Value.(*ssa.Builtin); isB && b.Name() == "append" && len(com.Args) == 2 && isByteSlice(x.Type()) {
+			var parts [][]vcase
+			parts = append(parts, e.cases(com.Args[0], d+1))
+			if elems, ok := variadicElems(com.Args[1]); ok {
+				lit := ""
+				allConst := true
+				for _, el := range elems {
+					if k, isK := constInt(stripConv(el)); isK && k >= 0 && k < 0x110000 {
+						lit += string(rune(k))
+					} else {
+						allConst = false
+					}
+				}
+				if allConst {
+					parts = append(parts, single(fmt.Sprintf("%q", lit)))
+				} else {
+					parts = append(parts, single("…"))
+				}
+			} else {
+				parts = append(parts, e.cases(com.Args[1], d+1))
+			}
+			return e.cross(parts, func(ts []string) string {
+				var flat []string
+				for _, t := range ts {
+					if t == `""` {
+						continue
+					}
+					if strings.HasPrefix(t, "cat(") && strings.HasSuffix(t, ")") && balancedTo(t, 3) == len(t)-1 {
+						flat = append(flat, splitTopLevel(t[4:len(t)-1])...)
+					} else {
+						flat = append(flat, t)
+					}
+				}
+				if len(flat) == 1 {
+					return flat[0]
+				}
+				return "cat(" + strings.Join(mergeLiterals(flat), ",") + ")"
+			})
+		}
 		if f := com.StaticCallee(); f != nil && e.p.InModule(f) && e.depth < 2 && f.Blocks != nil && len(f.Blocks) <= 6 && !callsItself(f) && returnsValue(f) && inlinable(f) {
 			if cs := e.inline(x, f, d); cs != nil {
 				return cs
@@ -872,4 +919,13 @@ func isSinkType(t types.Type) bool {
 		return isNamed(pt.Elem(), "strings", "Builder") || isNamed(pt.Elem(), "bytes", "Buffer") || isNamed(pt.Elem(), "bufio", "Writer")
 	}
 	return false
+}
+
+func isByteSlice(t types.Type) bool {
+	sl, ok := t.Underlying().(*types.Slice)
+	if !ok {
+		return false
+	}
+	b, ok := sl.Elem().Underlying().(*types.Basic)
+	return ok && b.Kind() == types.Byte
 }
